@@ -70,6 +70,11 @@ def run(chk):
     chk.call(r4_constitution, chk, j)
     chk.call(r5_geometry_order, chk, j)
     chk.call(r6_iterated_join, chk)
+    # R7: "moved rigidly, never mirrored" for exactly (anti)parallel attachment vectors rests on the half-turn branch of
+    # rotation_matrix_from_vectors (join calls it with (v2, -v1)): the clause C11.R6 decides, evaluated under this property
+    from . import c11
+
+    chk.borrow("C12.R7", c11.r6_antiparallel_branch, chk)
 
 
 def r6_iterated_join(chk):
